@@ -17,12 +17,12 @@ Target(e) ==
     IN IF fresh # {} THEN Min(fresh) ELSE IF same # {} THEN Max(same) ELSE 0
 Step(e) ==
     CASE e.ev = "Reset"   -> cl' = Empty /\ ev' = Empty /\ UNCHANGED bad
-      [] e.ev = "Hello"   -> E!DoHello(e.c)
+      [] e.ev = "Hello"   -> E!DoHello(e.c, e.ver)
       [] e.ev = "Register"    -> E!DoRegister(e.c, e.schema)
       [] e.ev = "RegisterAck" -> E!DoRegisterAck(e.c)
       [] e.ev = "Close"   -> E!DoClose(e.c)
-      [] e.ev = "Emit"    -> E!DoEmit(e.id, e.kind, e.h)
-      [] e.ev = "Recv"    -> E!DoRecv(e.c, Target(e), e.stream, Target(e) # 0)
+      [] e.ev = "Emit"    -> E!DoEmit(e.id, e.kind, e.h, e.v4only)
+      [] e.ev = "Recv"    -> E!DoRecv(e.c, Target(e), e.stream, Target(e) # 0, e.ver)
       [] e.ev = "Quiet"   -> E!DoQuiet
 TraceNext ==
     /\ TLCSet(7, l) /\ l <= Len(TraceLog) /\ l' = l + 1
